@@ -100,6 +100,8 @@ class CHECK(Check):
             kw = lexemes.keyword_ids(m)
             for s in sents:
                 out.append((d, 'default', None, m.text_of(s, numbered=True)))
+                if sum(1 for t in s if t == 'ID') > 1:
+                    out.append((d, 'same-names', None, m.text_of(s)))
                 if s in pairs:
                     # layout deviation: every token on a line of its own
                     out.append((d, 'layout', 'nl', m.text_of(s, numbered=True).replace(' ', '\n')))
@@ -112,6 +114,10 @@ class CHECK(Check):
                     if s not in seen and usable(s):
                         seen.add(s)
                         out.append((d, 'default', None, m.text_of(s, numbered=True)))
+                        if table == 0 and sum(1 for t in s if t == 'ID') > 1:
+                            # all names equal: a name written in one clause coincides with the names of the others
+                            # (a key list naming a declared column, an alias equal to a table ...)
+                            out.append((d, 'same-names', None, m.text_of(s)))
             # keyword identifiers: every keyword word back-quoted (and bare) in a few fixed contexts
             for w in kw:
                 for ctx in ('select %s from t', 'select a from %s', 'select a as %s from t', 'select t.%s from t', 'select %s.a from %s',
